@@ -367,5 +367,6 @@ pub fn parts() -> Vec<Box<dyn PartDyn>> {
         shrink_budget: 150,
         confirm_runs: 2,
             fuzz: None,
+            watchdog_s: 60,
     })]
 }
